@@ -340,3 +340,14 @@ impl<T: ?Sized> ProbeSyncFallback for ProbeSync<T> {}
 impl<T: ?Sized + Sync> ProbeSync<T> {
     pub const YES: bool = true;
 }
+
+/// A user type whose path ends with the path of a standard type (C17: only the standard paths
+/// themselves are shortened); two bytes, so that a confusion with `String` shows in every table.
+pub mod compat {
+    pub mod alloc {
+        pub mod string {
+            #[derive(Debug, Clone, Copy, Default, PartialEq, Eq)]
+            pub struct String(pub u16);
+        }
+    }
+}
